@@ -24,6 +24,7 @@ from hypergraph.viz._common import (
     build_param_to_consumer_map,
     is_descendant_of,
     is_node_visible,
+    nearest_visible_ancestor,
 )
 from hypergraph.viz.renderer._format import format_type
 from hypergraph.viz.renderer.nodes import build_input_groups, has_end_routing
@@ -517,6 +518,8 @@ def _resolve_data_source(
             )
             if found:
                 actual_source = found
+        # Producer inside a collapsed inner container: draw from that container
+        actual_source = nearest_visible_ancestor(actual_source, flat_graph, expansion_state)
     if not is_node_visible(actual_source, flat_graph, expansion_state):
         return None
     return actual_source
